@@ -237,7 +237,7 @@ def run_shards(exe, args, nshards, timeout, env=None, out_prefix=None):
     procs = []
     for i in range(nshards):
         out = os.path.join(tmpd, "s%d.json" % i)
-        cmd = [exe] + list(args) + ["--shard", "%d/%d" % (i, nshards), "--out", out]
+        cmd = (exe if isinstance(exe, list) else [exe]) + list(args) + ["--shard", "%d/%d" % (i, nshards), "--out", out]
         e = dict(os.environ)
         if env:
             e.update(env)
